@@ -253,7 +253,10 @@ pub fn judge(ctx: &mut Ctx, r: &PortableRegistry, substitutes: &[(String, String
                 if item.generics.is_empty() {
                     let mut b = Bisim::new(r, &cm, &cl, true);
                     if let Err(div) = b.rel(t.id, &ty) {
-                        if matches!(div.kind, "variant-index" | "compact-marker") {
+                        // a compact in the registry that the code does not mark shows as a head
+                        // mismatch on the registry's compact
+                        let unmarked_compact = div.kind == "head-mismatch" && div.why.contains("is a compact but");
+                        if matches!(div.kind, "variant-index" | "compact-marker") || unmarked_compact {
                             ctx.violation(format!("C09:codec-on:{}", div.kind), format!("combination {k}: {}: {}", path.join("::"), div.render()), replay(k));
                         }
                     }
